@@ -13,7 +13,7 @@ PROPERTY = "C06"
 BOUNDS = {
     "quick": {"values": "1-2 values of <= 3 characters, every 8-bit code point except CR/LF", "ints": "unbounded solver ints rendered with <= 6 digits",
               "normal_form_text": "<= 4 characters"},
-    "thorough": {"values": "<= 5 characters", "normal_form_text": "<= 6 characters"},
+    "thorough": {"values": "<= 5 characters", "normal_form_text": "<= 5 characters"},
 }
 STUBS = ["none (token keys are concrete)"]
 ASSUMPTIONS = ["values exclude CR/LF; option-header values additionally exclude the literal %22 (documented to decode to a quote)",
@@ -327,6 +327,6 @@ def obligations(tier, seed):
         add("options[n=5]", "body_options", {"n": 5})
         add("dict[n=5]", "body_dict", {"n": 5, "with_none": False})
     for which in ("list", "set", "range"):
-        for n in (range(0, 5) if quick else range(0, 7)):
+        for n in (range(0, 5) if quick else range(0, 6)):
             add(f"normal-form[{which},n={n}]", "body_normal_form", {"which": which, "n": n}, n == 3, 900)
     return out
